@@ -74,3 +74,160 @@ func ruleTypeOfMayBeNil(c *Ctx, rule string) {
 	}
 	c.R.OK(rule, "typeof-uses-examined", "", fmt.Sprintf("%d uses of reflect.TypeOf on a possibly nil interface in the inference code", n))
 }
+
+func init() {
+	for _, pid := range []string{"C17", "C03"} {
+		pid := pid
+		Properties[pid].Rules = append(Properties[pid].Rules,
+			Rule{pid + "/unknown-keyword-is-no-field", func(c *Ctx) { ruleUnknownKeywordNoField(c, pid+"/unknown-keyword-is-no-field") }},
+			Rule{pid + "/unescape-whenever-escaped", func(c *Ctx) { ruleUnescapeWhenever(c, pid+"/unescape-whenever-escaped") }})
+	}
+	for _, pid := range []string{"C01", "C07"} {
+		pid := pid
+		Properties[pid].Rules = append(Properties[pid].Rules, Rule{pid + "/contains-from-the-first-item", func(c *Ctx) { ruleContainsFromFirst(c, pid+"/contains-from-the-first-item") }})
+	}
+}
+
+// In the function that maps a pointer token to a field of Schema, a field is selected by an index path only where
+// the token was found in the table of schema fields: the index path comes from a comma-ok lookup whose ok guards
+// the selection. (The zero StructField has an empty index path, and FieldByIndex of an empty path is the struct
+// itself: an unknown token would be skipped silently.)
+func ruleUnknownKeywordNoField(c *Ctx, rule string) {
+	lf := c.pointerFieldLookup(rule)
+	if lf == nil {
+		return
+	}
+	n := 0
+	core.EachInstr(lf, func(i ssa.Instruction) {
+		call, ok := i.(*ssa.Call)
+		if !ok || core.CalleeKey(&call.Call) != "reflect.Value.FieldByIndex" || len(call.Call.Args) < 2 {
+			return
+		}
+		var lk *ssa.Lookup
+		for _, v := range append(backSlice(call.Call.Args[1], 10), call.Call.Args[1]) {
+			if l, ok := v.(*ssa.Lookup); ok {
+				if _, isMap := l.X.Type().Underlying().(*types.Map); isMap {
+					lk = l
+				}
+			}
+		}
+		if lk == nil {
+			return
+		}
+		n++
+		guarded := false
+		if lk.CommaOk {
+			for _, g := range guardsLocal(call) {
+				if ex, ok := g.Cond.(*ssa.Extract); ok && g.Pol && ex.Tuple == ssa.Value(lk) && ex.Index == 1 {
+					guarded = true
+				}
+			}
+		}
+		c.R.Check(guarded, rule, fmt.Sprintf("%s:field-by-index#%d", core.FuncName(lf), n), c.pos(call), "a field is selected only where the token was found in the table", "a field of Schema is selected with the index path of a table entry without knowing that the token is in the table: for an unknown token the zero entry has an empty index path, FieldByIndex answers the schema itself, and the token is silently skipped, so \"#/nosuch/$defs/a\" resolves to /$defs/a instead of making Resolve fail")
+	})
+	c.R.Floor(rule, "selections of a schema field by a table entry's index path", n, 1)
+}
+
+// Every token of a JSON Pointer is unescaped whenever the pointer contains the escape character: the only test
+// that may stand before the unescaping is one of presence (strings.Contains, an Index result compared with zero or
+// minus one); a test that does arithmetic on the position leaves out escapes at the very end (the keys "/" and "~").
+func ruleUnescapeWhenever(c *Ctx, rule string) {
+	n := 0
+	for _, fn := range c.Closure(rule, "RES").Minus(c.Closure(rule, "EV")).Sorted() {
+		if !c.P.InPkg(fn) {
+			continue
+		}
+		core.EachInstr(fn, func(i ssa.Instruction) {
+			call, ok := i.(*ssa.Call)
+			if !ok {
+				return
+			}
+			h := call.Call.StaticCallee()
+			if h == nil || !c.P.InPkg(h) || len(h.Params) != 1 || !tString(h.Params[0].Type()) || h.Signature.Results().Len() != 1 || !tString(h.Signature.Results().At(0).Type()) {
+				return
+			}
+			// the helper applies a Replacer held in a package variable to its argument
+			uses := false
+			core.EachInstr(h, func(j ssa.Instruction) {
+				if hc, ok := j.(*ssa.Call); ok && core.CalleeKey(&hc.Call) == "strings.Replacer.Replace" {
+					uses = true
+				}
+			})
+			if !uses || fn == h {
+				return
+			}
+			// only the decoding direction is of interest: callers that split a pointer
+			splits := false
+			core.EachInstr(fn, func(j ssa.Instruction) {
+				if sc, ok := j.(*ssa.Call); ok && core.CalleeKey(&sc.Call) == "strings.Split" {
+					splits = true
+				}
+			})
+			if !splits {
+				return
+			}
+			n++
+			arith := ""
+			for _, g := range guardsLocal(call) {
+				for _, v := range append(backSlice(g.Cond, 10), g.Cond) {
+					bo, ok := v.(*ssa.BinOp)
+					if !ok || (bo.Op.String() != "+" && bo.Op.String() != "-") {
+						continue
+					}
+					for _, w := range append(backSlice(bo, 6), bo) {
+						if ic, ok := w.(*ssa.Call); ok {
+							if k := core.CalleeKey(&ic.Call); len(k) > 13 && k[:13] == "strings.Index" || k == "strings.LastIndex" || k == "strings.LastIndexByte" {
+								arith = c.pos(g.At)
+							}
+						}
+					}
+				}
+			}
+			c.R.Check(arith == "", rule, fmt.Sprintf("%s:unescape#%d", core.FuncName(fn), n), c.pos(call), "the tokens are unescaped whenever the pointer contains the escape character", "whether the tokens of a pointer are unescaped depends on where the first escape character stands (arithmetic on its position, test at "+arith+"): an escape at the very end of the pointer is left as it is, so \"#/$defs/~1\" (the key \"/\") fails, or selects a schema stored under the raw text \"~1\"")
+		})
+	}
+	c.R.Floor(rule, "unescapings of pointer tokens", n, 1)
+}
+
+// `contains` looks at every item of the array, the ones a prefixItems of the same schema object evaluated included:
+// the loop that evaluates the items against the contains subschema starts at index 0.
+func ruleContainsFromFirst(c *Ctx, rule string) {
+	m := c.EvalModel(rule)
+	if m == nil {
+		return
+	}
+	n := 0
+	for _, s := range m.Sites {
+		isContains := false
+		for _, src := range s.SchemaSrc {
+			if src == "Schema.Contains" {
+				isContains = true
+			}
+		}
+		if !isContains {
+			continue
+		}
+		site, ok := s.siteInstr().(*ssa.Call)
+		if !ok {
+			continue
+		}
+		for _, a := range site.Call.Args {
+			ic, ok := a.(*ssa.Call)
+			if !ok || core.CalleeKey(&ic.Call) != "reflect.Value.Index" || len(ic.Call.Args) < 2 {
+				continue
+			}
+			start, known := indexStart(ic.Call.Args[1])
+			if !known {
+				// the counter may start from a variable: that is the case to report
+				if phi, isPhi := ic.Call.Args[1].(*ssa.Phi); isPhi {
+					n++
+					c.R.Bad(rule, "contains:from-the-first-item", c.pos(phi), "the loop that evaluates the items against `contains` does not start at a constant index (it starts where some earlier keyword stopped): items that prefixItems evaluated are never offered to `contains`, so an array whose only matching item lies in the prefix fails, and minContains/maxContains count too few")
+				}
+				continue
+			}
+			n++
+			c.R.Check(start == 0, rule, "contains:from-the-first-item", c.pos(ic), "`contains` looks at the items from index 0", fmt.Sprintf("the loop that evaluates the items against `contains` starts at index %d", start))
+		}
+	}
+	c.R.Floor(rule, "item loops of `contains`", n, 1)
+}
